@@ -55,7 +55,9 @@ class Encoder:
         http1 = kw.get("http1", True)
         http2 = kw.get("http2", False)
         guess = []
-        for i, o in enumerate(self.origins):
+        px = kw.get("proxy")
+        tunnel = px is not None and px.url.scheme in (b"http", b"https")  # (a tunnel reports its proxy leg while connecting: never "available")
+        for i, o in enumerate(self.origins if not tunnel else []):
             if http2 and (o.scheme == b"https" or not http1):
                 guess.append(self.origin_name(i))
         calls = [self.run.calls[n] for n in self.names]
